@@ -29,7 +29,7 @@ m = dict(
     hooks=dict(guard="xgillard_ddo_verif (cargo feature of the ddo crate)",
                enable="harness/Cargo.toml depends on ddo = { path = \"/repo/ddo\", features = [\"xgillard_ddo_verif\"] }; every check rebuilds the harness with `cargo build --release --offline`",
                baseline_off_cmd="cd /repo && cargo test --workspace --no-fail-fast --offline",
-               source_commits=["41a2632"], add_only=True),
+               source_commits=["41a2632", "649fb4c"], add_only=True),
     engines=[dict(name="lean-proof+correspondence", path="/verif/check", serves_properties=[c["property_id"] for c in checks],
                   kind_free_text="Lean 4 development /verif/lean (models, Props/*.lean theorems, native driver ddo_model) + Rust harness /verif/harness driving /repo/ddo in-process + python orchestrator")],
     checks=checks,
